@@ -50,6 +50,21 @@ func (j *judge) explore(nodes map[string]*node, bp BatchProject, seed, pidx uint
 				add(pl.buildForced(ri, "value-sweep", nil, false, map[string][]WireVal{prm.GoName: {c}}))
 			}
 		}
+		// damage sweep: every non-converting value of every non-body parameter once
+		for _, prm := range rt.M.Params {
+			if prm.Loc == "context" || prm.Loc == "body" || prm.Type.Kind == "enum" {
+				continue
+			}
+			for _, gv := range garbled(prm.Type.Prim) {
+				if prm.Loc == "header" && strings.TrimSpace(gv.Raw) != gv.Raw {
+					continue
+				}
+				if prm.Loc == "path" && gv.Raw == "" {
+					continue
+				}
+				add(pl.buildForced(ri, "damage-sweep", map[string]string{prm.GoName: "garble"}, false, map[string][]WireVal{prm.GoName: {gv}}))
+			}
+		}
 		// per-parameter damage
 		for _, prm := range rt.M.Params {
 			if prm.Loc == "context" {
